@@ -57,6 +57,11 @@ def cases(tier, seed):
 
 def setup(ctx):
     monitors.install(ctx, set())
+    # other evaluators exist in the same process (a decision metric outside the default instance metrics)
+    try:
+        pan.Panoptica_Evaluator(expected_input=pan.InputType.MATCHED_INSTANCE, decision_metric=pan.Metric.clDSC, decision_threshold=0.5)
+    except Exception:  # noqa: BLE001
+        pass
 
 
 def scenario_inputs(i, it, ndim):
@@ -127,12 +132,16 @@ def run(case, ctx):
                 "matcher": None if it == "MATCHED_INSTANCE" else {"kind": ["naive", "merge"][i % 2], "metric": "IOU", "thr": extra.get("thr", 0.5)},
                 "dm": extra.get("dm"), "dt": extra.get("dt"),
             }
+            default_lists = i % 4 == 0 and metrics != [extra.get("dm")]
+            if default_lists:  # the constructor's own default instance metrics (DSC, IOU, ASSD, RVD); handler defines exactly these
+                metrics = ["DSC", "IOU", "ASSD", "RVD"]
+                ctx.count("f:default_metric_lists")
             ev = pan.Panoptica_Evaluator(
                 expected_input=pan.INPUT[it],
                 instance_approximator=pan.ConnectedComponentsInstanceApproximator(pan.BACKEND[cfg["backend"]]) if it == "SEMANTIC" else None,
                 instance_matcher=pan.make_matcher(cfg["matcher"]),
-                edge_case_handler=make_handler_variant(h, std, i % 2),
-                instance_metrics=[pan.METRIC[m] for m in metrics],
+                edge_case_handler=make_handler_variant({m: h[m] for m in metrics} if default_lists else h, std, i % 2),
+                **({} if default_lists else {"instance_metrics": [pan.METRIC[m] for m in metrics]}),
                 global_metrics=[],
                 decision_metric=pan.METRIC[cfg["dm"]] if cfg["dm"] else None,
                 decision_threshold=cfg["dt"],
